@@ -357,6 +357,22 @@ def update (H : Bytes → Str) (src : Src) (st : DState) (doc : JObj) : Res (DSt
       | .panic m => .panic m
     | _ => .panic "root_identifier_not_a_string"
 
+/-- `Melda::reload` / `Melda::reload_until` at document level: refused, with the replica untouched, when a
+    revision OR an object body is staged (a body can be staged without a revision: an object created and
+    removed again through the object API leaves its body in `DataStorage.stage`) -/
+def reload (st : DState) (v : View) : Except PState.PErr DState :=
+  if st.p.hasStaging || !st.stage.isEmpty then .error .stageNotEmpty
+  else match PState.reload st.p v with
+    | .ok p' => .ok { st with p := p' }
+    | .error e => .error e
+
+def reloadUntil (st : DState) (v : View) (anchors : List BlockId) : Except PState.PErr DState :=
+  if anchors.isEmpty then reload st v
+  else if st.p.hasStaging || !st.stage.isEmpty then .error .stageNotEmpty
+  else match PState.reloadUntil st.p v anchors with
+    | .ok p' => .ok { st with p := p' }
+    | .error e => .error e
+
 /-- `read(None)` -/
 def read (src : Src) (st : DState) : Res (JVal × Lru Rev (List JVal)) :=
   if (st.treeOf ROOT_ID).isNone then .err "no_root"
